@@ -19,8 +19,10 @@ VARIABLES l,      \* next trace line
           tid,    \* id of the running trace
           obs,    \* item -> committed digest as last logged (changes only through Commit)
           bad,    \* verdict: set of <<tid, what>>
-          cnt     \* event name -> number of matched events
-tvars == <<vars, l, tid, obs, bad, cnt>>
+          cnt,    \* event name -> number of matched events
+          lost    \* the running trace has left the specification (first unexplained event seen): the re-synchronised model state is
+                  \* not trusted for property-level verdicts any more; the rest of this trace is consumed without judgement
+tvars == <<vars, l, tid, obs, bad, cnt, lost>>
 
 E == Trace[l]
 Is(ev) == l <= Len(Trace) /\ E.ev = ev
@@ -37,7 +39,7 @@ ResetSolver ==
   /\ results' = <<>> /\ cbs' = <<>> /\ frames' = <<>> /\ time' = 0
   /\ returned' = {} /\ raised' = "none" /\ lastcheck' = "none"
 
-TInit == Init /\ l = 1 /\ tid = "-" /\ obs = <<>> /\ bad = {} /\ cnt = <<>>
+TInit == Init /\ l = 1 /\ tid = "-" /\ obs = <<>> /\ bad = {} /\ cnt = <<>> /\ lost = FALSE
 
 StepCfgOf(e) == [items |-> ToSet(e.items), first |-> e.first, stateful |-> ToSet(e.items), extra |-> ToSet(e.extra),
                  ramp |-> e.ramp, nsub |-> e.nsub, usex0 |-> e.usex0, x0id |-> e.x0]
@@ -101,7 +103,8 @@ InvHolds(n) == CASE n = "CommittedIsReturned" -> CommittedIsReturned
                  [] n = "RaiseOrReturn" -> RaiseOrReturn
                  [] n = "StartFromPrevious" -> StartFromPrevious
 
-Good == /\ Matched /\ Adv
+Good == /\ (~lost \/ Is("TraceBegin")) /\ lost' = FALSE
+        /\ Matched /\ Adv
         /\ cnt' = Bump(cnt, E.ev)
         /\ bad' = bad \cup {<<tid', "Invariant-" \o InvNames[n]>> : n \in {m \in 1..Len(InvNames) : ~InvHolds(InvNames[m])'}}
 
@@ -140,7 +143,7 @@ Reasons(e) ==
              /\ \A it \in DOMAIN e.expect.committed : Match(Get(obs, it), e.expect.committed[it]))
         THEN {"OutcomeNotAsSpecified"} ELSE {})
 Mismatch ==
-  /\ l <= Len(Trace) /\ ~ENABLED Matched
+  /\ l <= Len(Trace) /\ ~lost /\ ~ENABLED Matched /\ lost' = TRUE
   /\ bad' = bad \cup {<<tid, "Mismatch-" \o E.ev \o "-at-" \o pc>>} \cup {<<tid, c>> : c \in Reasons(E)}
   /\ pc' = PcAfter(E)
   /\ x' = IF "x" \in DOMAIN E THEN E.x ELSE x
@@ -160,11 +163,13 @@ Mismatch ==
   /\ tid' = IF E.ev = "TraceBegin" THEN E.tid ELSE tid
   /\ Adv /\ UNCHANGED <<job, scfg, j, x0ver, committed0, results, cbs, frames, time, returned, lastcheck, cnt>>
 
+\* after the first unexplained event of a trace: consume up to the next TraceBegin
+Skip == /\ lost /\ l <= Len(Trace) /\ E.ev # "TraceBegin" /\ Adv /\ UNCHANGED <<vars, tid, obs, bad, cnt, lost>>
 Finish == /\ l = Len(Trace) + 1
           /\ JsonSerialize(IOEnv.VERDICT_FILE, [bad |-> bad, cnt |-> cnt, n |-> Len(Trace)])
-          /\ l' = l + 1 /\ UNCHANGED <<vars, tid, obs, bad, cnt>>
+          /\ l' = l + 1 /\ UNCHANGED <<vars, tid, obs, bad, cnt, lost>>
 
-TNext == Good \/ Mismatch \/ Finish
+TNext == Good \/ Mismatch \/ Skip \/ Finish
 TSpec == TInit /\ [][TNext]_tvars
 Consumed == TLCGet("stats").diameter = Len(Trace) + 2
 =============================================================================
